@@ -3,8 +3,7 @@ package main
 import (
 	"context"
 	"fmt"
-	"sort"
-	"strings"
+	"os"
 
 	"github.com/sourcenetwork/defradb/verifharness/core"
 )
@@ -12,25 +11,10 @@ import (
 func main() {
 	ctx := context.Background()
 	n := core.NewNode(ctx, core.NodeOpts{})
-	_, err := n.DB.AddSchema(ctx, "type User {\n name: String\n age: Int\n tag: String\n pts: Int @crdt(type: pcounter)\n}\n")
+	_, err := n.DB.AddSchema(ctx, os.Args[1])
 	core.Must(err)
-	var sb strings.Builder
-	for i := 0; i < 12; i++ {
-		fmt.Fprintf(&sb, "type Pad%d {\n aaa%d: Int\n tag: Int\n name: Int\n age: Int\n}\n", i, i)
+	for _, q := range os.Args[2:] {
+		d, e := n.GQL(ctx, q)
+		fmt.Println(q, "\n  =>", d, e)
 	}
-	_, err = n.DB.AddSchema(ctx, sb.String())
-	core.Must(err)
-	var ks []string
-	for k, v := range n.RawScan(ctx, "/db/system/field") {
-		ks = append(ks, k+" = "+v)
-	}
-	sort.Strings(ks)
-	for _, k := range ks {
-		fmt.Println(k)
-	}
-	for k, v := range n.RawScan(ctx, "/db/system/collection/short") {
-		fmt.Println(k, v)
-	}
-	var cols any
-	_ = cols
 }
